@@ -41,9 +41,7 @@ TRUSTED = ['model Upstream.v hand-written from mapproxy/source/wms.py, source/ti
            'PROJ results rounded to the 1/1024 lattice by the harness (T is abstract in the theorems)',
            'strings are identifiers: extension of a mime type, lower-casing and srs_code equality are computed by the harness']
 ASSUMPTIONS = ['coverage is a bbox coverage', 'WMS 1.1.1 GET requests', 'query size > 0 and non-empty bbox',
-               'PROJ returns a non-degenerate bbox for a non-degenerate bbox',
-               'upstream_srs_supported: preferred_src_proj spells SRS codes as supported_srs does (else known finding)',
-               'upstream_*_supported/bbox: no forwarded parameter is named bbox/width/height/srs/format (else known finding)']
+               'PROJ returns a non-degenerate bbox for a non-degenerate bbox']
 EXPLANATION = ('request construction proved over the model for all configurations and queries; implementation compared on generated '
                'configurations loaded by the real loader')
 
